@@ -996,3 +996,36 @@ Theorem C15_encoding_supplement_not_implemented : forall c fmt rest,
   encoding_read c = Err NotImplemented.
 Proof. exact encoding_supplement_not_implemented. Qed.
 Print Assumptions C15_encoding_supplement_not_implemented.
+
+(* charset queries on the parsed value (formats 1 and 2): CustomCharset::id_for_glyph is the lookup in
+   the expansion of the ranges — the value the round trip preserves is the value the queries see *)
+From AV Require Import Proofs.CffSetsLookup.
+Theorem C15_charset_id_for_glyph_ranges : forall fmt recs gid,
+  fmt <> 0 -> Forall (fun r => 0 <= nthZ r 1) recs -> 0 <= gid ->
+  charset_id_for_glyph (fmt, recs) gid =
+    if gid =? 0 then Some 0
+    else if gid <=? len (expand recs)
+      then (let v := nthZ (expand recs) (gid - 1) in if v <=? 65535 then Some v else None)
+      else None.
+Proof. exact charset_id_for_glyph_ranges. Qed.
+Print Assumptions C15_charset_id_for_glyph_ranges.
+
+Example charset_id_for_glyph_somewhere :
+  expand [[391; 2]; [1000; 0]; [65535; 1]] = [391; 392; 393; 1000; 65535; 65536] /\
+  map (charset_id_for_glyph (1, [[391; 2]; [1000; 0]; [65535; 1]])) [0; 1; 3; 4; 5; 6; 7]
+    = [Some 0; Some 391; Some 393; Some 1000; Some 65535; None; None].
+Proof. split; vm_compute; reflexivity. Qed.
+
+(* the SID -> glyph query (used for seac components) is a right inverse of id_for_glyph on every range
+   list, and its result is a glyph id in 1..65535 — no wrap-around, whatever the ranges claim *)
+Theorem C15_charset_sid_to_gid_inverts : forall fmt recs sid g,
+  fmt <> 0 -> Forall (fun r => 0 <= nthZ r 1) recs -> 0 <= sid <= 65535 ->
+  charset_sid_to_gid (fmt, recs) sid = Some g ->
+  1 <= g <= 65535 /\ charset_id_for_glyph (fmt, recs) g = Some sid.
+Proof. exact charset_sid_to_gid_inverts. Qed.
+Print Assumptions C15_charset_sid_to_gid_inverts.
+
+Example charset_sid_to_gid_somewhere :
+  map (charset_sid_to_gid (2, [[100; 65535]; [7; 0]])) [100; 5; 7; 65535] = [Some 1; None; None; Some 65436] /\
+  charset_sid_to_gid (1, [[391; 2]; [1000; 0]]) 1000 = Some 4.
+Proof. split; vm_compute; reflexivity. Qed.
